@@ -621,3 +621,112 @@ func (c *Ctx) rejectionReasons(rule string) {
 		c.und(rule, "rejections before the handler", "-", "none found")
 	}
 }
+
+// descriptorFromCheckedLookup: whatever ends up in the dispatcher's method descriptor comes from a
+// comma-ok lookup (whose flag is what the "method not found" reply hangs on): a plain v := table[key]
+// never reports absence, so an alias whose target is not registered yields the zero descriptor, and
+// calling its nil function panics instead of answering -32601.
+func (c *Ctx) descriptorFromCheckedLookup(rule string) {
+	p, r := c.P, c.R
+	if r.FnDisp == nil {
+		c.und(rule, "dispatcher", "-", "not resolved")
+		return
+	}
+	n := 0
+	for _, g := range c.region(r.FnDisp) {
+		allInstrsRaw(g, func(in ssa.Instruction) {
+			lk, ok := in.(*ssa.Lookup)
+			if !ok {
+				return
+			}
+			mt, ok := lk.X.Type().Underlying().(*types.Map)
+			if !ok {
+				return
+			}
+			nt, ok := mt.Elem().(*types.Named)
+			if !ok || nt.Obj().Pkg() != p.Root.Pkg {
+				return
+			}
+			st := structOf(nt)
+			if st == nil {
+				return
+			}
+			hasFn := false
+			for i := 0; i < st.NumFields(); i++ {
+				if isNamed(st.Field(i).Type(), "reflect", "Value") {
+					hasFn = true
+				}
+			}
+			if !hasFn {
+				return
+			}
+			n++
+			c.check(lk.CommaOk, rule, fmt.Sprintf("%s: lookup in the method table", fname(g)), c.ipos(lk), "comma-ok form", "the method table is read without the comma-ok form: an unknown name (an alias whose target is not registered) yields the zero descriptor instead of 'not found', and calling its nil function panics — no reply over HTTP, a crashed process over WebSocket — instead of answering -32601")
+		})
+	}
+	if n == 0 {
+		c.und(rule, "method table lookups", "-", "none found in the dispatcher")
+	}
+}
+
+// keepFlagFromDescriptor: R06.11. The flag handed to the dispatcher's completion callback (keep the
+// context: the method returns a channel) must be computed from the descriptor of the method that runs.
+// A set of "channel methods" filled at registration and asked with the request's wire name does not know
+// aliases: a subscription opened through an alias has its handler context cancelled as soon as the
+// subscribing call returns.
+func (c *Ctx) keepFlagFromDescriptor(rule string) {
+	p, r := c.P, c.R
+	if r.FnDisp == nil {
+		return
+	}
+	n := 0
+	for _, g := range c.region(r.FnDisp) {
+		allInstrsRaw(g, func(in ssa.Instruction) {
+			ci, ok := in.(ssa.CallInstruction)
+			if !ok || ci.Common().IsInvoke() {
+				return
+			}
+			if _, isParam := ci.Common().Value.(*ssa.Parameter); !isParam {
+				return
+			}
+			for _, a := range ci.Common().Args {
+				b, isB := a.Type().Underlying().(*types.Basic)
+				if !isB || b.Kind() != types.Bool {
+					continue
+				}
+				if _, isK := a.(*ssa.Const); isK {
+					continue
+				}
+				n++
+				var side *ssa.Lookup
+				c.dependsOn(a, func(v ssa.Value) bool {
+					lk, ok := v.(*ssa.Lookup)
+					if !ok {
+						return false
+					}
+					mt, ok := lk.X.Type().Underlying().(*types.Map)
+					if !ok {
+						return false
+					}
+					switch e := mt.Elem().Underlying().(type) {
+					case *types.Basic:
+						if e.Kind() == types.Bool {
+							side = lk
+						}
+					case *types.Struct:
+						if e.NumFields() == 0 {
+							side = lk
+						}
+					}
+					return false
+				}, 0, map[ssa.Value]bool{})
+				construct := fmt.Sprintf("%s: keep-context flag handed to the completion callback", fname(g))
+				c.check(side == nil, rule, construct, c.ipos(in), "computed from the method descriptor", "the keep-context flag is looked up in a side table (a set of channel-returning methods) instead of being computed from the resolved method descriptor: the table is keyed by the name the method was registered under, so a subscription opened through an alias is not in it and its handler context is cancelled the moment the subscribing call returns")
+			}
+		})
+	}
+	_ = p
+	if n == 0 {
+		c.ok(rule, "completion callback", "-", "only constant flags")
+	}
+}
